@@ -134,6 +134,28 @@ func textSpace(w *mc.Worker, tier string, body func(text string, edited bool)) {
 			})
 		})
 	})
+	// argument lists while they are being typed: holes (keywords, stray tokens) among valid arguments,
+	// fewer and more arguments than the function takes
+	w.Stage("call-arguments", "set_tx_meta / set_account_meta / an unknown function as statements and balance / meta / overdraft as the origin of a declared variable, with ALL argument lists of length <= 4 over {string, variable, account, asset, number, `max`, `from`, `to`}", func() {
+		argAlpha := []string{"\"k\"", "$v", "@a", "USD/2", "1", "max", "from", "to"}
+		shapes := []string{"vars { account $v }\nset_tx_meta ( %s )\n", "vars { account $v }\nset_account_meta ( %s )\n", "vars { account $v }\nfoo ( %s )\n",
+			"vars { account $v monetary $b = balance ( %s ) }\nsend $b ( source = $v destination = @x )\n", "vars { account $v string $b = meta ( %s ) }\nset_tx_meta ( $b , $v )\n", "vars { account $v monetary $b = overdraft ( %s ) }\nsend $b ( source = $v destination = @x )\n"}
+		w.Outer("call-arguments/shape", 0, func(o *mc.Explorer) {
+			sh := shapes[o.Choose(len(shapes))]
+			n := o.Choose(5)
+			if !w.Mine(fmt.Sprint(sh, n)) {
+				return
+			}
+			w.Owned()
+			w.Inner(0, func(in *mc.Explorer) {
+				var args []string
+				for i := 0; i < n; i++ {
+					args = append(args, argAlpha[in.Choose(len(argAlpha))])
+				}
+				once(fmt.Sprintf(sh, strings.Join(args, " , ")), true)
+			})
+		})
+	})
 	w.Stage(fmt.Sprintf("soups-L%d", soupLen), fmt.Sprintf("all token sequences of length <= %d over the "+alphaN+"-entry alphabet, space separated", soupLen), func() {
 		w.Outer(fmt.Sprintf("soups-L%d/first", soupLen), 0, func(o *mc.Explorer) {
 			first := tokenAlphabet[o.Choose(len(tokenAlphabet))]
